@@ -32,8 +32,12 @@ def cases(draw, tier="quick"):
     parts = draw(st.sampled_from([1, 2, 2, 3, 4]))
     case = draw(dyn.graphs(min_nodes=3, max_nodes=12 if tier == "quick" else 16, parts=parts))
     n = len(case["nodes"])
-    if draw(st.integers(0, 3)) == 0:
+    pick = draw(st.integers(0, 5))
+    if pick == 0:
         case["graph"] = {"kind": "targets", "targets": sorted(draw(st.sets(st.integers(0, n - 1), min_size=1, max_size=min(3, n))))}
+    elif pick == 1:
+        # a graph dict that is not closed under dependencies (as process_dir / get_subgraphs build them)
+        case["graph"] = {"kind": "subset", "subset": sorted(draw(st.sets(st.integers(0, n - 1), min_size=1, max_size=n)))}
     else:
         case["graph"] = {"kind": "full"}
     case["prios"] = draw(st.lists(st.lists(st.integers(0, 30), min_size=n, max_size=n), min_size=2, max_size=4))
@@ -47,6 +51,8 @@ def _graph(case, b):
     g = case.get("graph", {"kind": "full"})
     if g["kind"] == "full":
         active = set(range(len(nodes)))
+    elif g["kind"] == "subset":
+        active = set(g["subset"])
     else:
         active = dyn.closure(case, g["targets"])
     graph = dict((comps[i], set(comps[j] for j in dyn.dep_set(nodes[i]))) for i in sorted(active))
@@ -98,7 +104,7 @@ def _fresh_broker(case, b):
     broker = dr.Broker()
     broker.store_skips = case["store_skips"]
     for i in case["seeded"]:
-        broker[b.comps[i]] = ("seed", i)
+        broker[b.comps[i]] = dyn.seed_value(case, i)
     return broker
 
 
